@@ -44,15 +44,15 @@ theorem encodeUtf16_render_head (be : Bool) (d : LDecl) :
 
 /-- **Declared UTF-16 text without byte order mark**: the label `UTF-16` / `utf-16` (any label that
     `for_label` maps, after `normalise` and `endianify`, to the UTF-16 of the byte order in use). -/
-theorem decodeBytes_utf16_declared (be : Bool) (d : LDecl) (hok : d.ok = true) (hlen : 2 * d.render.length ≤ 1024)
+theorem decodeBytes_utf16_declared (be : Bool) (d : LDecl) (hok : d.ok = true)
     (L : Str) (hL : d.encoding = some L) (hlabel : forLabel (label16 be L) = some (enc16 be)) (body : Str) :
     decodeBytes (encodeUtf16 be (d.render ++ body)) = some (d.render ++ body) := by
   have hasc := render_ascii d hok
   have hdec := decodeUtf16_encode be (d.render ++ body)
   rw [encodeUtf16_append] at hdec ⊢
-  have hx := xmlDeclaration_spelled d hok (encodeUtf16 be d.render) (encodeUtf16 be body)
+  have hx := xmlDeclaration_spelled d hok [] (encodeUtf16 be d.render) (encodeUtf16 be body) (by simp [declBoms])
     (spells_utf16 be _ hasc)
-    (by rw [length_encodeUtf16_ascii be _ (fun c hc => (hasc c hc).2)]; exact hlen)
+  rw [List.nil_append] at hx
   rw [hL] at hx
   obtain ⟨rest, hr⟩ := encodeUtf16_render_head be d
   rw [hr] at hx hdec ⊢
